@@ -163,8 +163,6 @@ def run_options(ctx, h):
     sims = sim.json_items("CASE")
     if len(cases) < 5000 or len(sims) < num:
         raise Infra("TLC exported only %d + %d option cases" % (len(cases), len(sims)))
-    if ctx.replay:
-        cases, sims = [json.load(open(ctx.replay))["case"]["case"]], []
     replay_grouped(ctx, h, "TestVerifOptions", cases + sims, lambda c: c["exp"], "options", opt_sig, opt_describe)
     return cases, sims
 
@@ -212,7 +210,7 @@ POOLS = {   # options whose value grammar the specification decides for ANY sequ
     "--expect": ["a", "x", "ctrl-a", "enter", "f2", "space", ",", "alt-x", "up", "tab", " ", ":", "+"],
 }
 OPTNUM, OPTSTR = ["--multi", "--sort"], ["--border", "--color"]
-BIND_KEYS = ["a", "x", "ctrl-a", "enter", "return", "f2", "alt-x", "space", "load", "change", "tab", "up", ",", ":", "+",
+BIND_KEYS = ["a", "x", "ctrl-a", "enter", "return", "f2", "alt-x", "space", "load", "change", "tab", "up", "down", ",", ":", "+",
              " ", "("]
 BIND_PLAIN = ["up", "down", "accept", "abort", "select-all", "toggle-down", "preview-up", "print-query",
               "toggle-preview", "change-multi", "put", "bogus"]
@@ -306,7 +304,8 @@ def gen_occurrence(rng):
     return [{"k": "opt", "o": SHORT[opt] if f == "sspace" else opt, "v": []}, {"k": "val", "o": "", "v": v}]
 
 
-RND_CHARS = "abcxyzABC0189 _-+=,:;.()[]{}<>~!@#$%^&*|?'\"`\\\t" + "\u00e9\u00df\u65e5\u672c\u03bb"
+# every character is at least one column wide (the pointer width check counts columns): no tab / control characters
+RND_CHARS = "abcxyzABC0189 _-+=,:;.()[]{}<>~!@#$%^&*|?'\"`\\" + "\u00e9\u00df\u65e5\u672c\u03bb"
 
 
 def render(rng, w):
@@ -459,14 +458,89 @@ def run_j_bind(ctx, h):
 WORKERS = int(os.environ.get("VERIF_WORKERS", "0") or 0) or None
 
 
+BIND_HARD = set("+,:() ")
+
+
+def do_replay(ctx, h):
+    """bin/check C17 <tier> --replay file: re-run exactly one recorded case."""
+    case = json.load(open(ctx.replay))["case"]
+    label = case.get("label")
+    if label in ("options", "bind"):
+        run, sig, desc = (("TestVerifOptions", opt_sig, opt_describe) if label == "options" else
+                          ("TestVerifBind", bind_sig, bind_describe))
+        replay_grouped(ctx, h, run, [case["case"]], lambda c: c["exp"], label, sig, desc)
+    elif label == "bindj":
+        vlib.record_and_judge(ctx, h, "TestVerifBindRecord", [{"atoms": case["record"]["atoms"]}], "Judge_Bind",
+                              "Judge_Bind.cfg", "bindj", kf=lambda r: {"what": "bind-j", "panic": r["panic"],
+                                                                       "real_err": r["err"]}, workers=1)
+    elif label == "j-options":
+        r = case["record"]
+        rec = run_binaries(ctx, ctx.build_fzf(), [{k: r[k] for k in ("file", "env", "argv", "strs")}])
+        bad, _ = vlib.judge(ctx, "Judge_Options", "Judge_Options.cfg", rec, "options-replay", workers=1)
+        for k in bad:
+            ctx.violation("J options (replay): exit %s for argv=%s" % (rec[k]["exit"], json.dumps(rec[k]["strs"]["argv"])),
+                          {"label": "j-options", "record": rec[k], "kf": j_sig(rec[k])})
+    else:
+        raise Infra("unknown replay label %r" % label)
+    return "model_checking"
+
+
 def run(ctx):
     h = ctx.build_harness("src", HARNESS_FILES)
-    if os.environ.get("C17_ONLY", "") in ("", "bind"):
+    if ctx.replay:
+        return do_replay(ctx, h)
+    only = os.environ.get("C17_ONLY", "")          # development aid: run one part only
+    legal = seqs = cases = sims = jb = jo = []
+    if only in ("", "bind"):
         legal, seqs = run_bind(ctx, h)
-        ctx.cov["distinct_nontrivial"] = len(legal)
-    if os.environ.get("C17_ONLY", "") in ("", "options"):
+    if only in ("", "options"):
         cases, sims = run_options(ctx, h)
-    if os.environ.get("C17_ONLY", "") in ("", "j"):
+    if only in ("", "j"):
         jb = run_j_bind(ctx, h)
         jo = run_j_options(ctx)
+    # ---- evidence
+    default_cfg = None
+    for c in cases:
+        if c["file"] == "\\NONE" and c["env"] == "" and c["argv"] == [] and not c["exp"]["err"]:
+            default_cfg = c["exp"]["cfg"]
+    accepted = {json.dumps([c["file"], c["env"], c["argv"]]) for c in cases + sims
+                if not c["exp"]["err"] and c["exp"]["cfg"] != default_cfg}
+    rejected = [c for c in cases + sims if c["exp"]["err"]]
+    hard_bind = {json.dumps(c["binds"]) for c in legal
+                 if any(ch in BIND_HARD for b in c["binds"] for ch in b.split(":", 1)[-1].replace("execute", "", 1)[1:-1])}
+    ctx.cov["option_cases"] = len(cases)
+    ctx.cov["option_cases_simulated"] = len(sims)
+    ctx.cov["option_cases_accepted_nondefault"] = len(accepted)
+    ctx.cov["option_cases_rejected"] = len(rejected)
+    ctx.cov["option_error_sources"] = {s: len([c for c in rejected if c["exp"].get("src") == s]) for s in SOURCES}
+    ctx.cov["distinct_nontrivial"] = len(accepted) + len(hard_bind)
+    ctx.cov["rule"] = (
+        "distinct (options file, $FZF_DEFAULT_OPTS, argv) triples generated by TLC from the option vocabulary whose "
+        "predicted outcome is an accepted configuration different from the default one (every field of the projected "
+        "configuration compared with the real ParseOptions) + distinct legal --bind strings (all 17 delimiter forms x "
+        "16 embedding contexts x arguments over {a + , : ( ) blank}) whose argument contains at least one of + , : ( ) "
+        "blank, compared key by key with the real parseKeymap; rejected cases, arbitrary atom sequences, random bind "
+        "strings judged by TLC and real-binary runs are counted separately in coverage")
+    ctx.cov["exhaustive"] = False
+    if cases:
+        ok = [c for c in cases if not c["exp"]["err"] and c["exp"]["cfg"] != default_cfg]
+        c = ok[(ctx.seed * 7919) % len(ok)]
+        ctx.sample({"file": c["file"], "env": c["env"], "argv": c["argv"],
+                    "expected_nondefault": {k: v for k, v in c["exp"]["cfg"].items() if v != default_cfg[k]}})
+        bad = rejected[(ctx.seed * 104729) % len(rejected)]
+        ctx.sample({"file": bad["file"], "env": bad["env"], "argv": bad["argv"], "expected": bad["exp"]})
+    ctx.assumptions += [
+        "option vocabulary: 45 flag spellings/forms and 20 valued options (277 occurrences = option x form x value); "
+        "other options are parsed by the same loop but their value grammars are not modelled",
+        "values are sequences of atoms of a fixed vocabulary chosen so that no concatenation of two atoms is itself a "
+        "key/action/number; arbitrary texts (J) are opaque to the spec and only generated where every text has the same "
+        "validity (they start with r_, contain no '/', NUL or newline)",
+        "complete: singles x 4 placements, same-family pairs x 6 placements, all bind forms/contexts/arguments <= %d, all "
+        "atom sequences <= %d over 14 atoms; cross-family pairs are a seeded 1/%d sample" % (
+            ctx.pick(2, 3), ctx.pick(3, 4), ctx.pick(40, 3)),
+        "stdin is not a terminal in every run (the default --scheme depends on it); NO_COLOR unset",
+        "error messages are compared only by the source they name (file / $FZF_DEFAULT_OPTS / argv), not by text",
+        "'never a crash' for arbitrary bytes is not decidable by a bounded model: every replay and every real-binary "
+        "run additionally checks for Go panics",
+    ]
     return "model_checking"
